@@ -472,8 +472,13 @@ func (f *Frame) enterLoop(li *LoopInfo, preds []*ssa.BasicBlock, conds []string)
 	allocBefore := ""
 	var allowed map[string][]*Loc
 	framed := false
-	if f.top {
-		allowed, framed = f.allowedLocs()
+	// loops of inlined helpers are framed by the contract of the function under verification
+	topf := f
+	for topf.parent != nil {
+		topf = topf.parent
+	}
+	if topf.top {
+		allowed, framed = topf.allowedLocs()
 	}
 	li.framed = map[string]bool{}
 	for _, v := range ws {
@@ -481,7 +486,7 @@ func (f *Frame) enterLoop(li *LoopInfo, preds []*ssa.BasicBlock, conds []string)
 			allocBefore = e.hget(hdr, v)
 		}
 		before := e.hget(hdr, v)
-		if refs, ok := li.mapPoints[v]; ok && !(framed && f.framedVar(v)) {
+		if refs, ok := li.mapPoints[v]; ok && !(framed && topf.framedVar(v)) {
 			// only these maps are written in the loop: every other map keeps its contents
 			cur := before
 			for _, rv := range refs {
@@ -508,10 +513,10 @@ func (f *Frame) enterLoop(li *LoopInfo, preds []*ssa.BasicBlock, conds []string)
 			continue
 		}
 		e.hhavoc(hdr, v)
-		if framed && f.framedVar(v) {
+		if framed && topf.framedVar(v) {
 			// the loop may change v only where the function's modifies clause allows
 			// (re-checked for the loop body at every back edge: frame.loop)
-			e.assert(f.frameDef(v, e.hget(hdr, v), before, allowed[v]))
+			e.assert(topf.frameDef(v, e.hget(hdr, v), before, allowed[v]))
 			li.framed[v] = true
 		}
 	}
@@ -607,7 +612,11 @@ func (f *Frame) backEdge(li *LoopInfo, from *ssa.BasicBlock, ec string) {
 		}
 	}
 	if len(li.framed) > 0 {
-		allowed, _ := f.allowedLocs()
+		topf := f
+		for topf.parent != nil {
+			topf = topf.parent
+		}
+		allowed, _ := topf.allowedLocs()
 		var vs []string
 		for v := range li.framed {
 			vs = append(vs, v)
@@ -620,7 +629,7 @@ func (f *Frame) backEdge(li *LoopInfo, from *ssa.BasicBlock, ec string) {
 				continue
 			}
 			gn = append(gn, tag+":"+v)
-			gc = append(gc, f.frameCond(v, now, before, allowed[v]))
+			gc = append(gc, topf.frameCond(v, now, before, allowed[v]))
 		}
 		e.addGroup("frame.loop", tag+":all", ec, gn, gc, pos, "loop body writes only what the function's modifies clause allows", f.props())
 	}
